@@ -264,7 +264,7 @@ Record accepted (builtins : shell -> list (string * string)) (g : grammar) (sh :
   a_expr2 := a_spec a_expr1;
   a_order : resolution_order a_defs2 = Ok a_ord;
   a_table := resolve_in_order a_ord (table0_of a_defs2);
-  a_spaces : spaces a_table (spaces_fuel a_table a_expr2) a_expr2 [] false = Ok tt;
+  a_spaces : spaces a_table (spaces_fuel a_table a_expr2) a_expr2 [] false false = Ok tt;
   a_expr5 := propagate (collapse (resolve a_table a_expr2)) 0;
   a_referenced := referenced_of a_defs1 a_expr1;
   a_v : v = mkvalid a_command a_expr5 (get_nonterm_refs a_expr5)
@@ -285,7 +285,7 @@ Proof.
   fold (defs2_of (spec_of builtins sh us fs (defs1_of defs0)) (defs1_of defs0)).
   destruct (resolution_order _) as [ord| | |] eqn:Ho; cbn [obind]; try discriminate.
   fold (table0_of (defs2_of (spec_of builtins sh us fs (defs1_of defs0)) (defs1_of defs0))).
-  match goal with |- context [spaces ?t ?f ?e [] false] => destruct (spaces t f e [] false) as [[]| | |] eqn:Hsps end;
+  match goal with |- context [spaces ?t ?f ?e [] false false] => destruct (spaces t f e [] false false) as [[]| | |] eqn:Hsps end;
     cbn [obind]; try discriminate.
   intro H. inversion H; subst v. clear H.
   eapply (mkacc builtins g sh _ command cspan defs0 us fs ord); try eassumption; try reflexivity.
